@@ -110,3 +110,14 @@ package stackitem
 //@ ensures[close] result0 == nil && result1 == nil ==> d.count == old(d.count)
 //@ ensures[scalar] result1 == nil && (is(result0, Bool) || is(result0, Null)) && old(d.count) > -4611686018427387904 ==> d.count == old(d.count) - 1
 //@ ensures[budget] result1 == nil && (is(result0, Bool) || is(result0, Null)) ==> d.count >= 0
+
+// (C04) a recorded copy of an item (what System.Runtime.Notify keeps of its arguments) shares no
+// bytes with the original: byte strings and buffers are cloned, so nothing done to the original
+// later - by a callee that then fails, say - shows in the record.
+//@ prop C04
+//@ func deepCopy
+//@ may-panic
+//@ opt frame off
+//@ opt callers trust
+//@ call NewByteArray requires[copied] len(arg0) == 0 || fresh(arg0)
+//@ call NewBuffer requires[copied] len(arg0) == 0 || fresh(arg0)
